@@ -634,6 +634,12 @@ def apply_and_mapping_order(ctx, rule='A5'):
 
 
 def check(ctx):
+    # has_conditional_existence decides whether a mapping needs a `None` entry: recursive memoised graph functions
+    # store answers only (a placeholder stored before the recursion answers every node of a derivation cycle)
+    from ..rules import persist as _ps20
+    _ps20.check_provisional_memo_entries(ctx, [f for f in ctx.prog.all_functions()
+                                               if f.module.name.startswith('adsg_core.graph.')])
+    ctx.floor('A2r', 1, 'recursive memoised functions in the graph algorithms')
     apply_and_mapping_order(ctx)
     resolve_shape(ctx)
     init_shape(ctx)
@@ -651,6 +657,9 @@ def check(ctx):
 from ..selftest import V  # noqa: E402
 
 VARIANTS = [
+    V('placeholder-entry-in-recursive-memo', 'graph/traversal.py',
+      [("        in_walk_back.add(base_node)\n", "        in_walk_back.add(base_node)\n        traversed[base_node] = False\n")],
+      key='provisional-memo-entry'),
     V('only-first-originating-node-kept', 'graph/sup/dsg.py',
       [("        self._src_choice_originating_nodes = [edge[0] for edge in iter_in_edges(src_dsg.graph, src_choice_node)]\n",
         "        self._src_choice_originating_nodes = [edge[0] for edge in iter_in_edges(src_dsg.graph, src_choice_node)][:1]\n")],
